@@ -28,6 +28,8 @@ class Evaluator:
     ``attribute`` / ``name`` as needed; the defaults propagate tags through
     containers, subscripts, conditionals and arithmetic."""
 
+    ELEMENT_TAGS = frozenset()  # tags that describe the container itself (become "<tag>[*]" when nested one level)
+
     def __init__(self):
         self.flow = None  # set by TagFlow
 
@@ -53,6 +55,19 @@ class Evaluator:
 
     def compare(self, n: ast.Compare, st):
         return EMPTY
+
+    def iter_tags(self, it, st):
+        """Tags of the loop variable of ``for x in it`` / a comprehension generator."""
+        return self.ev(it, st)
+
+    def mutator_tags(self, call: ast.Call, st):
+        """Tags a container acquires from ``container.append/add/update/...(args)``."""
+        tags = EMPTY
+        for a in call.args:
+            tags |= self.ev(a, st)
+        for k in call.keywords:
+            tags |= self.ev(k.value, st)
+        return tags
 
     # -- driver -------------------------------------------------------------------
     def ev(self, e, st):
@@ -165,16 +180,23 @@ class TagFlow:
     def _mutators(self, expr, st):
         """x.append(v) / x.extend(v) / x.update(v) / x.add(v) / x.setdefault(k, v): x may now hold v."""
         for n in ast.walk(expr):
-            if isinstance(n, ast.Call) and isinstance(n.func, ast.Attribute) and isinstance(n.func.value, ast.Name):
-                if n.func.attr in ("append", "extend", "update", "insert", "add", "setdefault", "appendleft"):
-                    tags = EMPTY
-                    for a in n.args:
-                        tags |= self.evr.ev(a, st)
-                    for k in n.keywords:
-                        tags |= self.evr.ev(k.value, st)
+            if isinstance(n, ast.Call) and isinstance(n.func, ast.Attribute) and n.func.attr in ("append", "extend", "update", "insert", "add", "setdefault", "appendleft"):
+                recv = n.func.value
+                nested = False
+                # d[k].add(v) / d.get(k, ...).add(v) / d.setdefault(k, ...).add(v): the element container lives inside d
+                while True:
+                    if isinstance(recv, ast.Subscript):
+                        recv, nested = recv.value, True
+                    elif isinstance(recv, ast.Call) and isinstance(recv.func, ast.Attribute) and recv.func.attr in ("get", "setdefault"):
+                        recv, nested = recv.func.value, True
+                    else:
+                        break
+                if isinstance(recv, ast.Name) and recv.id not in ("self", "cls"):
+                    tags = self.evr.mutator_tags(n, st)
+                    if nested:
+                        tags = frozenset((t + "[*]" if t in self.evr.ELEMENT_TAGS else t) for t in tags)
                     if tags:
-                        v = n.func.value.id
-                        st[v] = st.get(v, EMPTY) | tags
+                        st[recv.id] = st.get(recv.id, EMPTY) | tags
 
     def transfer(self, s, st):
         st = dict(st)
@@ -191,7 +213,7 @@ class TagFlow:
             tags = self.evr.ev(s.value, st) | self.evr.ev(s.target, st)
             self._assign(s.target, tags, st)
         elif isinstance(s, (ast.For, ast.AsyncFor)):
-            self._assign(s.target, self.evr.ev(s.iter, st), st)
+            self._assign(s.target, self.evr.iter_tags(s.iter, st), st)
         elif isinstance(s, (ast.With, ast.AsyncWith)):
             for it in s.items:
                 if it.optional_vars is not None:
